@@ -130,6 +130,14 @@ def run(argv):
             verif.util.error("Empty argument")
         if argv[k - 1] in ["-T", "-dpi"] and not argv[k].lstrip("-").isdigit():
             verif.util.error("%s needs a whole number, got '%s'" % (argv[k - 1], argv[k]))
+        if argv[k - 1] == "-type" and argv[k] not in ["plot", "text", "csv", "map", "maprank", "rank", "impact", "mapimpact"]:
+            verif.util.error("Type not understood")
+        if argv[k - 1] in ["-xlim", "-ylim", "-clim"] and len(verif.util.parse_numbers(argv[k])) != 2:
+            verif.util.error("%s needs exactly 2 values (lower,upper)" % argv[k - 1])
+        if argv[k - 1] == "-fs" and (len(argv[k].split(",")) != 2 or not all(verif.util.is_number(v) for v in argv[k].split(","))):
+            verif.util.error("-fs needs two numbers (width,height), got '%s'" % argv[k])
+        if argv[k - 1] == "-aspect" and not (verif.util.is_number(argv[k]) and float(argv[k]) > 0):
+            verif.util.error("-aspect needs a positive number, got '%s'" % argv[k])
 
     # Read command line arguments
     i = 1
